@@ -39,16 +39,54 @@ type C19World struct {
 	Init      string  `json:"init"`      // zero | make | new
 	InitKeys  []int   `json:"init_keys,omitempty"`
 	Ops       []C19Op `json:"ops"`
+	NKeys     int     `json:"nkeys,omitempty"` // size of the key universe (0: the default of 5)
 }
 
-const c19Keys = 5
+const c19DefaultKeys = 5
+const c19MaxKeys = 48
+
+// c19Keys is the key universe of the history being executed (set per run: the
+// worker is single-threaded). Most histories use the small default universe, in
+// which collisions (re-set, delete of a present key) are frequent; a share of them
+// uses a larger one, so that a container grows across whatever size thresholds
+// its implementation may have (seeded change c19f: the 9th distinct element).
+var c19Keys = c19DefaultKeys
+
+func (w *C19World) nkeys() int {
+	if w.NKeys <= 0 {
+		return c19DefaultKeys
+	}
+	if w.NKeys > c19MaxKeys {
+		return c19MaxKeys
+	}
+	return w.NKeys
+}
 
 // The empty string is a key like any other (and key 0, so that the enumerated
 // histories use it). Keys are valid UTF-8 (JSON cannot carry anything else) but otherwise unusual:
 // control characters, DEL, quote, backslash, HTML-sensitive characters, a line
 // separator, a non-BMP rune and a non-printable rune above U+FFFF.
-var c19KeyNames = []string{"", "b\x01\x7f\a", "c\"q\\</&", "d\u2028é😀\U000e0001", "a"}
-var c19ConsKeys = []constraint.Type{constraint.MinLengthConstraintType, constraint.MaxConstraintType, constraint.TypeConstraintType, constraint.EnumConstraintType, constraint.KeysCaseInsensitiveConstraintType}
+var c19KeyNames = func() []string {
+	kk := []string{"", "b\x01\x7f\a", "c\"q\\</&", "d\u2028é😀\U000e0001", "a"}
+	for k := len(kk); k < c19MaxKeys; k++ {
+		name := "k" + strconv.Itoa(k)
+		switch k % 5 {
+		case 1:
+			name = "@T" + strconv.Itoa(k)
+		case 3:
+			name += "\t\u00a0"
+		}
+		kk = append(kk, name)
+	}
+	return kk
+}()
+var c19ConsKeys = func() []constraint.Type {
+	kk := []constraint.Type{constraint.MinLengthConstraintType, constraint.MaxConstraintType, constraint.TypeConstraintType, constraint.EnumConstraintType, constraint.KeysCaseInsensitiveConstraintType}
+	for k := len(kk); k < c19MaxKeys; k++ {
+		kk = append(kk, constraint.Type(100+k)) // Type is an int: any value is a key
+	}
+	return kk
+}()
 
 // ---- reference model: insertion-ordered dictionary ---------------------------
 
@@ -348,6 +386,7 @@ func runC19(w *C19World, seed uint64, onFatal func(int, string)) *c19Result {
 func c19Task(w *C19World, res *c19Result) {
 	m := &model{}
 	nextID := 0
+	c19Keys = w.nkeys()
 	w.InitKeys = dedupKeys(w.InitKeys)
 	cm, set := newContainer(w, m, &nextID)
 	fail := func(i int, op C19Op, what, want, got string) {
@@ -406,13 +445,13 @@ func c19Task(w *C19World, res *c19Result) {
 			var visited []int
 			cm.Filter(func(kk, id int) bool {
 				visited = append(visited, kk)
-				return op.Mask>>uint(kk)&1 == 1
+				return uint64(op.Mask)>>uint(kk)&1 == 1
 			})
 			var wantVisited []int
 			var kept []modelEntry
 			for _, e := range m.e {
 				wantVisited = append(wantVisited, e.k)
-				if op.Mask>>uint(e.k)&1 == 1 {
+				if uint64(op.Mask)>>uint(e.k)&1 == 1 {
 					kept = append(kept, e)
 				}
 			}
@@ -623,20 +662,44 @@ func genC19(seed uint64, maxOps int) *World {
 	r := &rng{s: seed}
 	cw := &C19World{Container: []string{"rule", "ast", "cons", "set"}[r.n(4)]}
 	cw.Init = []string{"zero", "make", "new"}[r.n(3)]
+	nk := c19DefaultKeys
+	grow := false
+	if r.pct(30) {
+		// a larger universe, and a history that mostly inserts, so that the container
+		// grows past 8, 16, 32 … entries (and shrinks again through filter/delete)
+		nk = []int{3, 9, 10, 12, 17, 18, 33, 40, c19MaxKeys}[r.n(9)]
+		cw.NKeys = nk
+		grow = r.pct(70)
+		if grow {
+			maxOps = nk*2 + 8
+		}
+	}
 	if cw.Init == "new" {
-		cw.InitKeys = r.perm(c19Keys)[:r.n(c19Keys+1)]
+		cw.InitKeys = r.perm(nk)[:r.n(nk+1)]
 	}
 	n := 1 + r.n(maxOps)
+	if grow && n < nk {
+		n = nk + r.n(nk)
+	}
 	for i := 0; i < n; i++ {
-		op := C19Op{Kind: c19MapOps[r.n(len(c19MapOps))], Key: r.n(c19Keys)}
+		op := C19Op{Kind: c19MapOps[r.n(len(c19MapOps))], Key: r.n(nk)}
+		if grow && r.pct(60) {
+			op.Kind = "set"
+			if r.pct(50) {
+				op.Key = i % nk // sweep the universe: every key gets inserted
+			}
+		}
 		switch op.Kind {
 		case "filter":
-			op.Mask = r.n(1 << c19Keys)
+			op.Mask = int(r.next() & (1<<uint(nk) - 1))
+			if grow && r.pct(50) {
+				op.Mask |= int(r.next() & (1<<uint(nk) - 1)) // keep most
+			}
 		case "find":
 			op.Mask = r.n(4) / 3
 		case "each", "map":
 			if r.pct(35) {
-				op.FailAt = 1 + r.n(c19Keys)
+				op.FailAt = 1 + r.n(nk)
 			}
 		}
 		cw.Ops = append(cw.Ops, op)
